@@ -1237,7 +1237,7 @@ class Builder(object):
                 "Script statements are not allowed " "within standalone lookup blocks",
                 location,
             )
-        if self.language_systems == {(script, "dflt")}:
+        if self.script_ == script and self.language_systems == {(script, "dflt")}:
             # Nothing to do.
             return
         self.cur_lookup_ = None
